@@ -111,6 +111,13 @@ func parseFileStore(raw []byte) map[int]*journal.Off {
 	return out
 }
 
+// parseCkptPayload decodes a checkpoint xattr payload.
+func parseCkptPayload(key, payload []byte) (*journal.Off, int, bool) {
+	m := parseFileStore([]byte(`{"0":` + string(payload) + `}`))
+	o, ok := m[0]
+	return o, ckptVb(key), ok && len(payload) > 0
+}
+
 func isCkptKey(k []byte) bool {
 	s := string(k)
 	return strings.HasPrefix(s, connPrefix) && strings.Contains(s, ":checkpoint:")
